@@ -97,6 +97,32 @@ Definition fast_probs (cs : list (clause A)) (ev : list (A * bool)) (qs : list A
     end
   end.
 
+(* C02 class, evaluated on the pruned and cone-restricted program (the graph test uses the full program) *)
+Definition fast_classify (cs : list (clause A)) (goals : list A) : c02class :=
+  match neg_cycle_free A eqb cs with
+  | None => ClassFuel
+  | Some true => MustAnswer
+  | Some false =>
+    match prune cs with
+    | None => ClassFuel
+    | Some cs1 =>
+      match cone A eqb (edges A cs1) goals, restrict cs1 goals with
+      | Some C, Some cs2 =>
+        let U := universe A eqb cs2 in
+        let lf := fun acc : list nrule =>
+          match wfm A eqb acc U with
+          | None => [1; 0]
+          | Some m => [0; b2q (negb (subset A eqb (filter (fun a => mem a C) (snd m)) (fst m)))]
+          end in
+        match wsumv 2 lf cs2 [] with
+        | [fu; un] => if negb (Qeq_bool fu 0) then ClassFuel else if Qeq_bool un 0 then Either else MustReject
+        | _ => ClassFuel
+        end
+      | _, _ => ClassFuel
+      end
+    end
+  end.
+
 (* number of AD instances (independent choices) the fast evaluation enumerates *)
 Definition is_ad (c : clause A) : bool := match c with AD _ _ => true | Rule _ _ => false end.
 Definition fast_choices (cs : list (clause A)) (goals : list A) : option nat :=
@@ -113,5 +139,7 @@ Definition fast_answers (P : program) : option (list (gatom * result)) :=
   let G := ground P in fast_probs gatom gatom_eqb (g_clauses G) (g_evid G) (g_queries G).
 Definition fast_nchoices (P : program) : option nat :=
   let G := ground P in fast_choices gatom gatom_eqb (g_clauses G) (goals G).
+Definition fast_gclassify (P : program) : c02class :=
+  let G := ground P in fast_classify gatom gatom_eqb (g_clauses G) (goals G).
 Definition spec_nchoices (P : program) : nat :=
   length (filter (is_ad gatom) (g_clauses (ground P))).
